@@ -10,7 +10,8 @@ from hypothesis import strategies as st
 from vf import gen as G
 from vf import oracle as O
 from vf import sps
-from vf.core import Clause, LibError, Violation, sut, time_guard
+from vf.core import Clause, Violation, time_guard
+from vf.sps import lib_call as sut      # vf.core.sut with the (possibly 1000-deep) exception chain cut
 
 PROPERTY_ID = "C09"
 RULE = ("Hypothesis-generated platform geometries over the whole quantifier range (bottom joint radius 0.2..2, ratio "
